@@ -9,7 +9,7 @@ use crate::rng::Rng;
 pub fn n_cases(prop: &str, tier: &str) -> usize {
     let quick = tier == "quick";
     match prop {
-        "C07" => if quick { 300 } else { 10_000 },
+        "C07" => if quick { 900 } else { 10_000 },
         // thorough: + every offset of the shipped example.hpo in 44 chunks, + the v1 / v2 files
         "C08" => if quick { 200 } else { 5_000 + 44 + 2 },
         _ => 0,
